@@ -283,13 +283,26 @@ func runBrokerPairs(r *h.Run, c h.Conf, kind string) {
 		go k.Trap(func() {
 			defer dwg.Done()
 			time.Sleep(off)
+			name := h.PluginName
+			if c.Proto == "netrpc" {
+				name = fmt.Sprintf("cmd%d", 1+i%3)
+			}
 			o := r.DoNoHang(fmt.Sprintf("Dispense[%d]", i), 60*time.Second, kind, func() (any, error) {
-				raw, err := s.cp.Dispense(h.PluginName)
+				raw, err := s.cp.Dispense(name)
 				if err != nil {
 					return nil, err
 				}
-				return raw.(plugins.Cmd).Do("tag", "")
+				tag, err := raw.(plugins.Cmd).Do("tag", "")
+				if err == nil && c.Proto == "netrpc" && !strings.Contains(tag, "/"+name+"/") {
+					return tag, fmt.Errorf("dispense of %q reached the server object %q", name, tag)
+				}
+				return tag, err
 			})
+			if o.Err != nil && strings.Contains(o.Err.Error(), "reached the server object") {
+				r.Violate("misroute", "broker="+kind+" dispense reached another dispense's server object", o.Err.Error())
+				dres[i].tag = fmt.Sprintf("misrouted-%d", i)
+				return
+			}
 			dres[i].err = o.Err
 			if o.Val != nil {
 				dres[i].tag = o.Val.(string)
